@@ -576,11 +576,39 @@ def fixed_direct_cases():
         {"name": "a", "wrap": "piecewise", "specials": ["0", "1"], "terms": [[["0", "1/5"], 0, ["1/2", "1/2"], ["plain"]], [["0", "-1/5"], 0, ["1/2", "-1/2"], ["plain"]]]},
         {"name": "b", "wrap": "none", "specials": [], "terms": [[["1", "0"], 0, ["1/2", "1/2"], ["shift", 1]], [["1", "0"], 0, ["1/2", "-1/2"], ["shift", 1]]]},
     ]})
+    out.append({"id": "fixed-fib-lucas2", "kind": "direct", "d": 5, "features": ["fixed", "field:sqrt(5)", "k=2"], "goals": [
+        {"name": "x", "wrap": "none", "specials": [], "terms": [[["0", "1/5"], 0, ["1/2", "1/2"], ["plain"]], [["0", "-1/5"], 0, ["1/2", "-1/2"], ["plain"]]]},
+        {"name": "y", "wrap": "none", "specials": [], "terms": [[["1", "1/2"], 0, ["3/2", "1/2"], ["plain"]], [["1", "-1/2"], 0, ["3/2", "-1/2"], ["plain"]]]},
+    ]})
     out.append({"id": "fixed-gauss", "kind": "direct", "d": -1, "features": ["fixed", "field:sqrt(-1)", "k=2"], "goals": [
         {"name": "x", "wrap": "none", "specials": [], "terms": [[["1", "0"], 0, ["1", "1"], ["plain"]], [["1", "0"], 0, ["1", "-1"], ["plain"]]]},
         {"name": "y", "wrap": "none", "specials": [], "terms": [[["1", "0"], 0, ["2", "0"], ["plain"]]]},
     ]})
     return out
+
+
+def order_cases(direct, cli):
+    """expected-slow cases first (CLI documentation loops, algebraic tuples with many goals), then CLI cases spread
+    evenly among the direct ones, so that a watchdog timeout never sits at the tail of a run"""
+    def weight(c):
+        if c["kind"] == "cli":
+            return 0 if "cli:doc-loop" in c.get("features", []) else 2
+        if c["d"] != 0 and len(c["goals"]) >= 3:
+            return 1
+        return 2
+    heavy = [c for c in cli + direct if weight(c) < 2]
+    heavy.sort(key=weight)
+    cli2 = [c for c in cli if weight(c) == 2]
+    rest = [c for c in direct if weight(c) == 2]
+    out = list(heavy)
+    step = max(1, len(rest) // max(1, len(cli2)))
+    ci = 0
+    for i, c in enumerate(rest):
+        out.append(c)
+        if i % step == step - 1 and ci < len(cli2):
+            out.append(cli2[ci])
+            ci += 1
+    return out + cli2[ci:]
 
 
 def case_setup(case):
@@ -930,7 +958,8 @@ def lattice_diagnosis(fld_hint=None):
                           matrix (with the parity column for the factor -1) has a non-integer entry
     """
     import sympy as sp
-    diag = {"bad_vectors": [], "nonintegral": False, "all_rational": None, "bases": [], "lattice": []}
+    diag = {"bad_vectors": [], "nonintegral": False, "all_rational": None, "bases": [], "lattice": [],
+            "irrational_coefficients": irrational_coefficients()}
     for bases, vecs in LOG["lattices"]:
         diag["bases"] = [str(b) for b in bases]
         diag["lattice"] = vecs
@@ -971,11 +1000,95 @@ def lattice_diagnosis(fld_hint=None):
     return diag
 
 
-def attribute(diag):
-    """mechanism key for a wrong / missing invariant, from the lattice diagnosis"""
+class _Budget(BaseException):
+    pass
+
+
+def recompute_with_algebraic_domain(names, budget_s=12):
+    """DIAGNOSIS ONLY (never decides a verdict): repeat the elimination of InvariantIdeal.compute_basis on Polar's own
+    intermediate data (abstracted closed forms, returned exponent lattice) with groebner(..., extension=True), i.e. over
+    QQ<alpha> instead of sympy's EX domain.  Returns the list of elimination-ideal generators or None (budget/exception)."""
+    import signal
+    import sympy as sp
+    if not LOG["abstracted"] or not LOG["lattices"]:
+        return None
+    cfs, b2s = LOG["abstracted"][-1]
+    _bases, vecs = LOG["lattices"][-1]
+    ev = dict(LOG["events"])
+
+    def onalarm(*_a):
+        raise _Budget()
+
+    old = signal.signal(signal.SIGALRM, onalarm)
+    signal.setitimer(signal.ITIMER_REAL, budget_s)
+    try:
+        from invariants.lattice_ideal import LatticeIdeal
+        bsyms = list(b2s.values())
+        polys = [sy - cf for sy, cf in cfs.items()] + list(LatticeIdeal(vecs, bsyms).compute_basis())
+        n = sym_n()
+        G = sp.groebner(polys, n, *bsyms, *cfs.keys(), extension=True)
+        forb = set(bsyms) | {n}
+        return [g for g in G if not (forb & g.free_symbols)]
+    except _Budget:
+        return None
+    except Exception:
+        return None
+    finally:
+        signal.setitimer(signal.ITIMER_REAL, 0)
+        signal.signal(signal.SIGALRM, old)
+        LOG["events"] = ev
+
+
+def irrational_coefficients():
+    """do the polynomials Polar hands to sympy.groebner have irrational (algebraic) coefficients?  Then sympy picks the
+    EX coefficient domain (no reliable zero test)."""
+    import sympy as sp
+    if not LOG["abstracted"]:
+        return False
+    cfs, _ = LOG["abstracted"][-1]
+    for cf in cfs.values():
+        cf = sp.sympify(cf)
+        if cf.has(sp.I) or any(p.exp.is_Rational and not p.exp.is_Integer for p in cf.atoms(sp.Pow)):
+            return True
+    return False
+
+
+KEY_EX = "groebner-ex-domain-irrational-coefficients"
+
+
+def attribute(diag, fixed_by_algebraic_domain=None):
+    """mechanism key for a wrong / missing invariant, from diagnostic predicates:
+       - all exponent bases rational and the rational kernel of the prime-exponent matrix is not integral (Polar truncates
+         it with astype(int))                                                      -> KEY_LATTICE
+       - the returned lattice is multiplicatively valid, the polynomials given to groebner have irrational coefficients
+         (EX domain) and repeating the elimination over QQ<alpha> does not show the defect (or could not be done in the
+         budget)                                                                   -> KEY_EX"""
     if diag.get("all_rational") and diag.get("nonintegral"):
         return KEY_LATTICE
+    if not diag.get("bad_vectors") and diag.get("irrational_coefficients") and fixed_by_algebraic_domain is not False:
+        return KEY_EX
     return None
+
+
+def diagnose_and_key(names, fixed_fn):
+    """-> (key, diag, fixed).  fixed_fn(recomputed_basis) -> bool tells whether the elimination repeated over QQ<alpha>
+    is free of the observed defect (only evaluated when the EX-domain predicate applies)."""
+    diag = lattice_diagnosis()
+    fixed = None
+    if attribute(diag) != KEY_LATTICE and diag["irrational_coefficients"] and not diag["bad_vectors"]:
+        rec = recompute_with_algebraic_domain(names)
+        if rec is not None:
+            try:
+                fixed = bool(fixed_fn(rec))
+            except Exception:
+                fixed = None
+    return attribute(diag, fixed), diag, fixed
+
+
+def diag_text(diag, fixed):
+    return (f"exponent lattice returned for bases {diag['bases']}: {diag['lattice']}, vectors violating prod b^v=1: "
+            f"{diag['bad_vectors']}, rational kernel non-integral: {diag['nonintegral']}, irrational coefficients passed to "
+            f"groebner (EX domain): {diag['irrational_coefficients']}, defect absent when the same elimination is done over QQ<alpha>: {fixed}")
 
 
 def run_polar_direct(case):
@@ -1043,6 +1156,14 @@ def _t_bern(rng):
     return (f"s = 0\nt = 0\nwhile true:\n    b = Bernoulli({p})\n    s = s + b\n    t = t + {m}*b\nend\n", goals, ["bernoulli-sums"])
 
 
+def _t_fib_lucas(rng):
+    # Fibonacci next to a Lucas-type sequence of every second index (bases phi, psi, phi**2, psi**2; sqrt(5) coefficients)
+    c0, c1 = rng.choice([(4, 11), (4, 11), (2, 3), (1, 4)])
+    goals = rng.choice([["a", "c"], ["a", "c"], ["b", "c"]])
+    return (f"a, b = 0, 1\nc, d = {c0}, {c1}\nwhile true:\n    a, b = b, a + b\n    c, d = d, 3*d - c\nend\n", goals,
+            ["fibonacci+lucas2", "field:sqrt(5)"])
+
+
 def _t_alt(rng):
     return ("z = 1\nx = 0\nwhile true:\n    z = -z\n    x = x + z\nend\n", None, ["alternating", "base:-1"])
 
@@ -1072,7 +1193,7 @@ def _t_normal(rng):
     return ("x = 0\ny = 0\nwhile true:\n    g = Normal(1, 2)\n    x = x + g\n    y = y + 3\nend\n", goals, ["normal-walk"])
 
 
-TEMPLATES = [_t_fib, _t_squares, _t_sums, _t_geo, _t_geo, _t_walks, _t_walks, _t_growth, _t_bern, _t_alt, _t_rot, _t_jordan,
+TEMPLATES = [_t_fib_lucas, _t_fib, _t_squares, _t_sums, _t_geo, _t_geo, _t_walks, _t_walks, _t_growth, _t_bern, _t_alt, _t_rot, _t_jordan,
              _t_pell, _t_lin, _t_normal]
 
 DOC_GOALS = {
@@ -1081,8 +1202,9 @@ DOC_GOALS = {
     "loop.prob": [["E(y)", "E(x)"], ["E(y)", "c2(y)"]],
     "fibonacci.prob": [None],
     "fibonacci2.prob": [None],
-    "markov-triples-random.prob": [["E(a)", "E(b)"]],
 }
+# markov-triples-random.prob is not used: its updates are non-linear (3*a*b - c) and Polar does not return within minutes
+DOC_SKIP = {"markov-triples-random.prob"}
 
 
 def gen_cli(seed_fn, count, tier):
@@ -1097,6 +1219,8 @@ def gen_cli(seed_fn, count, tier):
                       "features": ["cli"] + ["cli:" + f for f in feats]})
     for path in sorted(glob.glob(os.path.join(REPO, "documentation", "loops", "*.prob"))):
         name = os.path.basename(path)
+        if name in DOC_SKIP:
+            continue
         try:
             with open(path) as f:
                 text = f.read()
@@ -1161,15 +1285,22 @@ class CliSkip(Exception):
         self.detail = detail
 
 
-def oracle_goal_table(text, params, specs, N, max_states=40000):
-    """exact goal values at n = 0..N from the reference engine: list over goals of lists over n"""
+def oracle_goal_table(text, params, specs, N, max_states=40000, min_n=None):
+    """exact goal values at n = 0..N from the reference engine: list over goals of lists over n.  When the engine's
+    state cap is hit after iteration >= min_n (if given) the table is returned truncated at the last completed n."""
     from ..lang.parser import parse_program
     from ..ref.engine import Engine, Unsupported, CapExceeded, DomainError
     from ..ref import laws
     try:
         prog = parse_program(text)
         eng = Engine(prog, {k: F(v) for k, v in params.items()}, {}, max_states=max_states)
-        dists = eng.run(N)
+        dists = [eng.initial()]
+        try:
+            for _ in range(N):
+                dists.append(eng.step(dists[-1]))
+        except CapExceeded as e:
+            if min_n is None or len(dists) - 1 < min_n:
+                raise
         table = []
         for spec in specs:
             mono = spec[2]
@@ -1180,9 +1311,15 @@ def oracle_goal_table(text, params, specs, N, max_states=40000):
                     if not isinstance(v, F):
                         raise CliSkip("oracle-inexact")
                     return v
-                row.append(goal_value(spec, raw))
+                try:
+                    row.append(goal_value(spec, raw))
+                except CapExceeded:
+                    break
             table.append(row)
-        return table
+        m = min(len(r) for r in table) if table else 0
+        if m - 1 < (N if min_n is None else min_n):
+            raise CliSkip("oracle-cap", "moment evaluation hit the cap")
+        return [r[:m] for r in table]
     except Unsupported as e:
         raise CliSkip("oracle-unsupported", str(e)[:80])
     except CapExceeded as e:
